@@ -586,13 +586,15 @@ def run(c):
     data_f = ' '.join('%s:%s:%s' % (k, ','.join(map(str, v.shape)), ','.join(str(int(x)) for x in v.flat)) for k, v in ctx.vars.items())
     eval_strings = sorted(set(s for _, _, s in sem_const))
     reqs += ['eval|%s|%s|%s' % (data_f, ctx_field(const.fn_shapes), ' '.join(str(ord(ch)) for ch in s)) for s in eval_strings]
-    c.log('requests: %d parser strings (%d ASTs), %d + %d namespace strings' % (len(cases), len(asts), len(sem_const), len(sem_sided)))
-    allans = c.model(reqs)
+    src_trees, src_reqs = lean_src_cases(rng, ctx, var_shapes, fn_shapes, quick)
+    c.log('requests: %d parser strings (%d ASTs), %d + %d namespace strings, %d source trees' % (len(cases), len(asts), len(sem_const), len(sem_sided), len(src_trees)))
+    allans = c.model(reqs + src_reqs)
+    src_ans = allans[len(reqs):]; allans = allans[:len(reqs)]
     ans = allans[:len(cases)]; ans_const = allans[len(cases):len(cases) + len(sem_const)]
     ans_sided = allans[len(cases) + len(sem_const):len(cases) + len(sem_const) + len(sem_sided)]
     lean_eval = dict(zip(eval_strings, allans[len(cases) + len(sem_const) + len(sem_sided):]))
     c.log('model answered')
-    bad = [a for a in allans if a.startswith('bad-request')]
+    bad = [a for a in allans if a.startswith('bad-request')]      # (the src answers are checked in lean_src_stream)
     if bad: raise Infra('driver rejected a request')
 
     nbad = 0; mismatches = []
@@ -617,8 +619,10 @@ def run(c):
     c.obligation('sem:v2-namespace-vs-reading', f2 + f3 == 0, 'correspondence', '%d strings' % (len(sem_const) + len(sem_sided)))
     c.obligation('corr:v2-namespace-vs-model', not (p2 or p3), 'correspondence', '%d strings, %d disagreements' % (len(sem_const) + len(sem_sided), len(p2) + len(p3)))
 
-    lean_src_stream(c, v2, rng, ctx, rec, var_shapes, fn_shapes, quick, f2 + f3)
+    lean_src_stream(c, v2, rec, src_trees, src_ans, f2 + f3)
     f4 = v1_stream(c, rng, sctx, quick)
+    from . import c19v1
+    f6 = c19v1.stream(c, rng, sctx, quick, close, magnitude_ok)
 
     # ---------------------------------------------------------------- verdicts for model / code disagreements
     found = f2 + f3      # failing inputs of the v2 code explain v2 model / code disagreements (v1 is tied separately)
@@ -633,10 +637,8 @@ def run(c):
         c.broken_no_input('proof', b, dict(detail=b))
 
 
-def lean_src_stream(c, v2, rng, ctx, rec, var_shapes, fn_shapes, quick, found=0):
-    """ties `Src.print` / `elabExpr` of Model/C19Src.lean (the objects of theorem parse_print_partial) to the strings
-    and the real parser: the Lean printer must produce the harness' canonical printing, and the real parser's result
-    on that string must be the direct elaboration of the tree"""
+def lean_src_cases(rng, ctx, var_shapes, fn_shapes, quick):
+    """trees + driver requests of the `Src` stream (answered in the same driver run as the parser strings)"""
     gen = G.Gen(rng, ctx, sides=True, gradient=True)
     n_ast = 150 if quick else 4000
     trees = []
@@ -653,7 +655,13 @@ def lean_src_stream(c, v2, rng, ctx, rec, var_shapes, fn_shapes, quick, found=0)
             toks = G.src_tokens(t)
             if toks is not None: trees.append((t, toks))
     vars_f, fns_f = ctx_field(var_shapes), ctx_field(fn_shapes)
-    ans = c.model(['src|%s|%s|%s' % (vars_f, fns_f, ' '.join(toks)) for _, toks in trees])
+    return trees, ['src|%s|%s|%s' % (vars_f, fns_f, ' '.join(toks)) for _, toks in trees]
+
+
+def lean_src_stream(c, v2, rec, trees, ans, found=0):
+    """ties `Src.print` / `elabExpr` of Model/C19Src.lean (the objects of theorem parse_print_partial) to the strings
+    and the real parser: the Lean printer must produce the harness' canonical printing, and the real parser's result
+    on that string must be the direct elaboration of the tree"""
     nbad = 0; first = None
     for (t, toks), a in zip(trees, ans):
         f = a.split('|')
